@@ -443,6 +443,8 @@ class Executor:
         if isinstance(a, VNone) or isinstance(b, VNone):
             return z3.BoolVal(isinstance(a, VNone) and isinstance(b, VNone))
         if isinstance(a, VItem) and isinstance(b, VItem):
+            if self.pure:
+                return a.t == b.t        # specification level: the same item
             h = self.hooks.get('item.__eq__')
             if h:
                 return h(self, a, b)
@@ -786,6 +788,8 @@ class Executor:
         return lift(v)
 
     def e_Name(self, node, env):
+        if node.id == 'out' and self.pure and self.path.out is not None:
+            return self.path.out          # ghost: the sequence yielded so far
         v = env.lookup(node.id)
         if v is not None:
             return v
@@ -923,7 +927,7 @@ class Executor:
         left = self.eval(node.left, env)
         result = None
         for op, rn in zip(node.ops, node.comparators):
-            right = self.eval(rn, env)
+            right = self.eval(rn, env)       # (a later comparator is only evaluated if the chain is still true)
             c = self.compare(op, left, right)
             if len(node.ops) == 1:
                 return VBool(c)
@@ -1166,6 +1170,13 @@ class Executor:
         raise OutOfSubset('starred expression')
 
     def e_ListComp(self, node, env):
+        if len(node.generators) == 1 and not node.generators[0].ifs and \
+                isinstance(node.generators[0].target, ast.Name) and isinstance(node.elt, ast.Name) and \
+                node.elt.id == node.generators[0].target.id:
+            it = self.eval(node.generators[0].iter, env)
+            if isinstance(it, VSeq):
+                return VSeq(it.len, it.arr, it.kind)      # [x for x in seq]: a fresh list with the same items
+            return VPyList(self.iter_concrete(it))
         return VPyList(self.comprehension(node, env))
 
     def e_GeneratorExp(self, node, env):
@@ -1642,6 +1653,10 @@ class Executor:
                     exprs.append(n.value)
                 elif isinstance(n, ast.Call) and isinstance(n.func, ast.Attribute) and n.func.attr in self.MUTATORS:
                     exprs.append(n.func.value)
+        for st in stmts:
+            for n in ast.walk(st):
+                if isinstance(n, ast.Call) and isinstance(n.func, ast.Name) and n.func.id == 'next' and n.args:
+                    exprs.append(n.args[0])
         out = []
         for e in exprs:
             if not all(isinstance(x, (ast.Name, ast.Attribute, ast.Load)) for x in ast.walk(e)):
@@ -1650,7 +1665,7 @@ class Executor:
                 v = self.eval(e, env)
             except (OutOfSubset, PyRaise):
                 continue
-            if isinstance(v, VSeq) and not any(v is o for o in out):
+            if isinstance(v, (VSeq, VIter)) and not any(v is o for o in out):
                 out.append(v)
         return out
 
@@ -1723,6 +1738,9 @@ class Executor:
             if cur is not None:
                 env.assign(n, self.havoc_like(n, cur))
         for sq in self.mutated_seqs(node.body, env):
+            if isinstance(sq, VIter):
+                sq.pos = self.fresh('iter_pos', z3.IntSort())
+                continue
             sq.len = self.fresh('seq_len', z3.IntSort())
             sq.arr = self.fresh('seq_arr', z3.ArraySort(z3.IntSort(), sq.kind.sort))
             self.path.pc.append(sq.len >= 0)
@@ -1901,6 +1919,14 @@ class Executor:
 
 class DecimalLocalContext:
     """Marker class of the object returned by decimal.localcontext()."""
+
+
+class VIter(Val):
+    """iter(seq): an iterator with a position (mutable)."""
+
+    def __init__(self, seq, pos=0):
+        self.seq = seq
+        self.pos = z3.IntVal(pos) if isinstance(pos, int) else pos
 
 
 class VEnum(Val):
